@@ -44,7 +44,7 @@ def gen(r, hid, mode=None, max_lifetimes=2):
         ops = [f"I:t0:{r.choice(['raw', 'clo', 'fake', 'unc'])}:{r.randint(0, 3)}", "C:t0", "C:n0"]
         lts = [ops]
         return f"{hid} {','.join(decl + names + ['fk0', 'fk1', 'fk2', 'fk3'])} " + "|".join(",".join(o) for o in lts), lts
-    low = mode == "low"
+    low = mode in ("low", "low_full")
     B = region(r, low)
     off = r.choice(list(range(4080, 4096))) if mode in ("straddle", "edge") or r.random() < 0.4 else r.choice([0, 16, 1024, 4000, 4064])
     if mode in ("hole_lo", "hole_hi"): off = 0 if r.random() < 0.5 else off
@@ -60,13 +60,13 @@ def gen(r, hid, mode=None, max_lifetimes=2):
     fake = None
     hole = None
     lo = max(0x10000, (t & ~0xfff) - R - 2 * PAGE); hi = (t & ~0xfff) + R + 3 * PAGE
-    if mode in ("hole", "hole_lo", "hole_hi", "edge", "full", "hole_plusR", "hole_minusR"):
+    if mode in ("hole", "hole_lo", "hole_hi", "edge", "full", "low_full", "hole_plusR", "hole_minusR"):
         first = ((t - R) + PAGE) & ~0xfff                # lowest page-aligned address the allocator accepts (|d| < R)
         first = max(first, 0x10000)
         last = (t + R - 1) & ~0xfff
         if mode == "hole_lo": hole = first
         elif mode == "hole_hi": hole = last
-        elif mode == "full": hole = 0
+        elif mode in ("full", "low_full"): hole = 0       # low_full: a target below 128 MiB (window clipped at zero) with every page up to +128 MiB taken and free pages beyond
         elif mode == "hole_plusR": hole = t + R
         elif mode == "hole_minusR": hole = t - R
         else: hole = first + r.randrange(0, (last - first) // PAGE + 1) * PAGE
@@ -84,7 +84,7 @@ def gen(r, hid, mode=None, max_lifetimes=2):
     kinds = [f"I:t0:rawat:zf0"] if fake else [f"I:t0:{r.choice(['raw', 'clo', 'fake', 'unc'])}:{r.randint(0, 3)}"]
     ops = [kinds[0], "C:t0"]
     if mode in ("hole_plusR", "hole_minusR"): ops = [kinds[0]]       # the only free page is out of range: the installation must fail cleanly
-    if mode not in ("full", "hole_plusR", "hole_minusR") and r.random() < 0.4: ops.append(f"I:t0:raw:{r.randint(0, 3)}")
-    lts = [ops] + ([[f"I:t0:raw:{r.randint(0,3)}"]] if r.random() < 0.3 and mode not in ("full", "hole_plusR", "hole_minusR") else [])
+    if mode not in ("full", "low_full", "hole_plusR", "hole_minusR") and r.random() < 0.4: ops.append(f"I:t0:raw:{r.randint(0, 3)}")
+    lts = [ops] + ([[f"I:t0:raw:{r.randint(0,3)}"]] if r.random() < 0.3 and mode not in ("full", "low_full", "hole_plusR", "hole_minusR") else [])
     line = f"{hid} {','.join(decl + names + ['fk0', 'fk1', 'fk2', 'fk3'])} " + "|".join(",".join(o) for o in lts)
     return line, lts
